@@ -649,6 +649,47 @@ class TrKeyDict(Tr):
         return Tr.stmt0(self, s, ind)
 
 
+class TrStackAdd(Tr):
+    """`DicomStack.add_dcm` and the checks it calls, over the state `st_ : Stk.AddSt` (the attributes `add_dcm` reads and
+    writes) and a candidate `c : Stk.Cand` (what `add_dcm` looks at in the dataset and its meta data)"""
+    FIELDS = {'_ref_input': 'ref', '_files_info': 'files', '_sorting_tuples': 'tuples', '_repetition_times': 'trs',
+              '_phase_enc_dirs': 'pes'}
+    SCRATCH = ('_slice_pos_vals', '_time_vals', '_vector_vals')     # sets of the ordinates: functions of `_sorting_tuples`
+    ERR = {'NonImageDataSetError': 'nonImageDataSet', 'IncongruentImageError': 'incongruentImage', 'ImageCollisionError': 'imageCollision'}
+
+    persist = False      # the object keeps what was written before an exception: results are (state, exception or none)
+
+    def stmt0(self, s, ind):
+        src = self.src(s)
+        if isinstance(s, ast.Raise) and isinstance(s.exc, ast.Call) and isinstance(s.exc.func, ast.Name) and s.exc.func.id in self.ERR:
+            if self.persist:
+                return ['%sreturn (st_, some PyErr.%s)' % (ind, self.ERR[s.exc.func.id])]
+            return ['%sthrow PyErr.%s' % (ind, self.ERR[s.exc.func.id])]
+        if isinstance(s, ast.Expr) and isinstance(s.value, ast.Call) and isinstance(s.value.func, ast.Attribute) \
+                and s.value.func.attr == 'add' and isinstance(s.value.func.value, ast.Attribute) \
+                and self.src(s.value.func.value.value) == 'self' and len(s.value.args) == 1:
+            f = s.value.func.value.attr
+            if f in self.SCRATCH:
+                return []
+            if f in self.FIELDS:
+                fld = self.FIELDS[f]
+                return ['%sst_ := { st_ with %s := Stk.setInsert %s st_.%s }' % (ind, fld, self.atom(s.value.args[0]), fld)]
+        if isinstance(s, ast.Expr) and src.startswith('self._files_info.append('):
+            return ['%sst_ := { st_ with files := st_.files ++ [%s] }' % (ind, self.e(s.value.args[0]))]
+        if isinstance(s, ast.Assign) and len(s.targets) == 1 and isinstance(s.targets[0], ast.Attribute) \
+                and self.src(s.targets[0].value) == 'self':
+            f = s.targets[0].attr
+            if f in ('_shape_dirty', '_meta_dirty'):
+                if not (isinstance(s.value, ast.Constant) and s.value.value is True):
+                    raise Unsupported('dirty flag set to something else than True')
+                return ['%sst_ := { st_ with dirty := true }' % ind]
+            if f in self.FIELDS:
+                return ['%sst_ := { st_ with %s := %s }' % (ind, self.FIELDS[f], self.e(s.value))]
+        if isinstance(s, ast.Return) and s.value is None:
+            return ['%sreturn (st_, none)' % ind if self.persist else '%sreturn st_' % ind]
+        return Tr.stmt0(self, s, ind)
+
+
 class TrChkOrder(Tr):
     """the thorough check of `_chk_order`: `_files_info[i][1]` is the sorting tuple (vector, time, position)"""
     PROJ = {0: '.1', 1: '.2.1', 2: '.2.2'}
@@ -695,7 +736,7 @@ inductive PyErr
   | assertionError
   | invalidStack
   | invalidExtension
-  | fuelExhausted | unboundLocal | zeroDivision | typeError | keyError        -- a translated `while` loop ran longer than the bound the translator gave it
+  | fuelExhausted | unboundLocal | zeroDivision | typeError | keyError | nonImageDataSet | incongruentImage | imageCollision        -- a translated `while` loop ran longer than the bound the translator gave it
 deriving DecidableEq, Repr
 
 /-- a classification as the pair of strings the Python code unpacks it into -/
@@ -722,14 +763,16 @@ def pyStepAux {α : Type} (step : Nat) : Nat → List α → List α
 
 def pyStep {α : Type} (values : List α) (start step : Nat) : List α := pyStepAux step 0 (values.drop start)
 
-/-- what a method does to the classification dictionaries for one key, in order: values written under a class, classes the
-    key was deleted from -/
-structure KeyFx (α : Type) where
-  written : List (Cls × List α) := []
-  deleted : List Cls := []
+/-- one edit of the classification dictionaries for one key -/
+inductive KeyOp (α : Type)
+  | write (c : Cls) (v : List α)     -- `get_class_dict(c)[key] = v`
+  | del (c : Cls)                    -- `del get_class_dict(c)[key]`
 
-def KeyFx.write {α : Type} (fx : KeyFx α) (c : Cls) (v : List α) : KeyFx α := { fx with written := fx.written ++ [(c, v)] }
-def KeyFx.del {α : Type} (fx : KeyFx α) (c : Cls) : KeyFx α := { fx with deleted := fx.deleted ++ [c] }
+/-- what a method does to the classification dictionaries for one key, in order -/
+abbrev KeyFx (α : Type) := List (KeyOp α)
+
+def KeyFx.write {α : Type} (fx : KeyFx α) (c : Cls) (v : List α) : KeyFx α := fx ++ [KeyOp.write c v]
+def KeyFx.del {α : Type} (fx : KeyFx α) (c : Cls) : KeyFx α := fx ++ [KeyOp.del c]
 
 /-- the classification dictionaries of one extension seen from one key: the classes whose dictionary holds the key, with the
     values stored there (a constant is a one-element list) -/
@@ -752,6 +795,15 @@ def KeyDict.get {α : Type} (d : KeyDict α) (c : Cls) : Except PyErr (List α) 
 /-- `del get_class_dict(c)[key]` (KeyError when absent) -/
 def KeyDict.del {α : Type} (d : KeyDict α) (c : Cls) : Except PyErr (KeyDict α) :=
   if d.any (fun p => p.1 == c) then .ok (d.filter fun p => !(p.1 == c)) else .error PyErr.keyError
+
+/-- replay recorded edits on the dictionaries of the key -/
+def KeyDict.applyFx {α : Type} : KeyDict α → KeyFx α → Except PyErr (KeyDict α)
+  | d, [] => .ok d
+  | d, KeyOp.write c v :: rest => KeyDict.applyFx (d.set c v) rest
+  | d, KeyOp.del c :: rest =>
+    match KeyDict.del d c with
+    | .ok d' => KeyDict.applyFx d' rest
+    | .error e => .error e
 
 /-- `shape[slice_dim]` for a `slice_dim` that may be None (TypeError) -/
 def pyShapeAt (shape : List Nat) (slice_dim : Option Nat) : Except PyErr Nat :=
@@ -787,6 +839,7 @@ GROUP_OF = {
     'global_slice_subset': 'values', 'insert_slice_interleave': 'values', 'insert_sample_interleave': 'values',
     'copy_slice_dest': 'values', 'copy_slice_vals': 'values', 'get_changed_class': 'values',
     'reclassify': 'insert', 'change_class': 'insert', 'insert_slice': 'insert', 'insert_non_slice': 'insert', 'insert_sample': 'insert',
+    'chk_equal': 'stackadd', 'chk_close': 'stackadd', 'chk_congruent': 'stackadd', 'add_dcm': 'stackadd',
     'get_data_trim': 'data', 'file_idx_volume': 'data', 'file_idx_slice': 'data', 'get_data': 'data',
 }
 GROUP_IMPORTS = {
@@ -801,6 +854,7 @@ GROUP_IMPORTS = {
     'data': ['DcmVerif.Generated.PyPrelude', 'DcmVerif.Model.Wrap'],
     'values': ['DcmVerif.Generated.Code_classes'],
     'insert': ['DcmVerif.Generated.Code_values'],
+    'stackadd': ['DcmVerif.Generated.PyPrelude', 'DcmVerif.Model.StackAdd'],
 }
 GEN_DIR = os.environ.get('GEN_CODE_DIR', os.path.normpath(os.path.join(HERE, '..', 'lean', 'DcmVerif', 'Generated')))
 
@@ -827,14 +881,14 @@ def translate():
     dm = ast.parse(open(os.path.join(REPO, 'src', 'dcmstack', 'dcmmeta.py')).read())
     ds = ast.parse(open(os.path.join(REPO, 'src', 'dcmstack', 'dcmstack.py')).read())
 
-    def emit(name, sig, fn_body, tr, doc, prologue=()):
+    def emit(name, sig, fn_body, tr, doc, prologue=(), run='do'):
         out.cur = group_of(name)
         try:
             tr.mutable = tr.assigned_more_than_once(fn_body)
             tr.declared = []
             lines = ['  ' + l for l in prologue] + tr.block(fn_body, '  ')
             out.append('/-- %s -/' % doc)
-            out.append('def %s %s := do' % (name, sig))
+            out.append('def %s %s := %s' % (name, sig, run))
             out.extend(lines)
             out.append('')
         except Unsupported as e:
@@ -1151,6 +1205,79 @@ def translate():
              'loop over the keys of `other`): widen the class `self` holds the key under to the class `other` uses, or to the first '
              'class both can be widened to',
              prologue=['let mut d_ := d'])
+    # ---- DicomStack.add_dcm and the congruence checks (group `stackadd`)
+    for nm, sig, mp in (('_chk_equal', '(keys : List String) (meta1 meta2 : String → Nat) : Except PyErr Unit', {}),
+                        ('_chk_close', '(keys : List String) (meta1 meta2 : String → List Int) : Except PyErr Unit',
+                         {'np.allclose(meta1[key], meta2[key], atol=5e-05)': '(Stk.closeList (meta1 key) (meta2 key))'})):
+        f = find_func(ds, 'DicomStack', nm)
+        if f is None:
+            missing.append(nm.lstrip('_') + ': not found')
+            continue
+        tr = TrStackAdd(dict(mp, **{'meta1[key]': '(meta1 key)', 'meta2[key]': '(meta2 key)'}), {})
+        tr.ret_unit = True
+        emit(nm.lstrip('_'), sig, f.body + [ast.parse('return 0').body[0]], tr,
+             '`DicomStack.%s` (dcmstack.py), translated statement by statement; a meta data dictionary is a function of the key%s'
+             % (nm, '; `np.allclose(a, b, atol=5e-5)` is `Stk.closeList` (values on the 1e-6 lattice)' if mp else ''))
+    f = find_func(ds, 'DicomStack', '_chk_congruent')
+    if f is None:
+        missing.append('chk_congruent: not found')
+    else:
+        tr = TrStackAdd({'self._ref_input': 'ref'}, {
+            "self._chk_close(('PixelSpacing', 'ImageOrientationPatient'), meta, self._ref_input)":
+                'chk_close ["PixelSpacing", "ImageOrientationPatient"] c.closeMeta ref.closeMeta',
+            "self._chk_equal(('Rows', 'Columns'), meta, self._ref_input)":
+                'chk_equal ["Rows", "Columns"] c.eqMeta ref.eqMeta'})
+        tr.ret_unit = True
+        tr.stmt_map = {'if not self._ref_input is None:': None}
+        body = f.body
+        # `if not self._ref_input is None:` binds the reference input
+        if len(body) == 1 and isinstance(body[0], ast.If) and ast.unparse(body[0].test) == 'not self._ref_input is None' and not body[0].orelse:
+            inner = body[0].body
+            lines = []
+            try:
+                tr.declared = [set()]
+                for st_ in inner:
+                    if not (isinstance(st_, ast.Expr) and ast.unparse(st_.value) in tr.calls):
+                        raise Unsupported('statement in _chk_congruent: ' + ast.unparse(st_))
+                    lines.append('    %s' % tr.calls[ast.unparse(st_.value)])
+                out.cur = group_of('chk_congruent')
+                out.append('/-- `DicomStack._chk_congruent` (dcmstack.py): with a reference input, its spacing / orientation must be close and its matrix size equal; the meta data of the candidate and of the reference input are read through `Cand.closeMeta` / `Cand.eqMeta` -/')
+                out.append('def chk_congruent (ref : Option Stk.Cand) (c : Stk.Cand) : Except PyErr Unit := do')
+                out.append('  if let some ref := ref then')
+                out.extend(lines)
+                out.append('  return ()')
+                out.append('')
+            except Unsupported as e:
+                missing.append('chk_congruent: %s' % e)
+        else:
+            missing.append('chk_congruent: unexpected shape')
+    f = find_func(ds, 'DicomStack', 'add_dcm')
+    if f is None:
+        missing.append('add_dcm: not found')
+    else:
+        tr = TrStackAdd({'is_image(dcm)': 'c.isImage', 'dw.slice_indicator': 'c.f.p', 'self._sorting_tuples': 'st_.tuples',
+                         'self._time_order': 'time_order', 'self._vector_order': 'vector_order', 'self._ref_input': 'st_.ref',
+                         'self._time_order.get_ordinate(meta)': 't_ord', 'self._vector_order.get_ordinate(meta)': 'v_ord',
+                         "meta.get('InPlanePhaseEncodingDirection')": 'c.pe', "meta.get('RepetitionTime')": 'c.tr',
+                         '(vector_val, time_val, slice_pos)': '(vector_val, time_val, slice_pos)',
+                         '(nii_wrp, sorting_tuple)': 'c.f', 'NiftiWrapper.from_dicom_wrapper(dw, meta)': '(some c)',
+                         'not self._time_order is None': 'time_order', 'not self._vector_order is None': 'vector_order',
+                         'self._ref_input is None': '(st_.ref).isNone', 'not nii_wrp is None': '(nii_wrp).isSome'},
+                        {'self._chk_congruent(meta)': 'chk_congruent st_.ref c'})
+        tr.stmt_map = {'if meta is None:': [], 'dw = wrapper_from_data(dcm)': [],
+                       'time_val = None': ['let mut time_val := none_code'], 'vector_val = None': ['let mut vector_val := none_code'],
+                       'nii_wrp = None': ['let mut nii_wrp : Option Stk.Cand := none'],
+                       'self._chk_congruent(meta)': ['if let .error e_ := chk_congruent st_.ref c then', '  return (st_, some e_)']}
+        tr.stmt_map_declares = {'time_val = None': ['time_val'], 'vector_val = None': ['vector_val'], 'nii_wrp = None': ['nii_wrp']}
+        tr.persist = True
+        emit('add_dcm', '(time_order vector_order : Bool) (none_code t_ord v_ord : Int) (st : Stk.AddSt) (c : Stk.Cand) : Stk.AddSt × Option PyErr',
+             f.body + [ast.parse('return').body[0]], tr,
+             '`DicomStack.add_dcm` (dcmstack.py), translated statement by statement over the attributes it reads and writes '
+             '(`Stk.AddSt`) and what it looks at in the dataset (`Stk.Cand`): `is_image`, the slice indicator, the ordinates the '
+             'orderings compute (`t_ord`, `v_ord`; None is `none_code`), repetition time and phase-encoding direction; the sets of '
+             'single ordinates (`_slice_pos_vals`, `_time_vals`, `_vector_vals`) are projections of `_sorting_tuples` and are not kept. '
+             'An exception leaves the attributes as they are at that point: the result is the state together with the exception raised, if any',
+             prologue=['let mut st_ := st'], run='Id.run do')
     # ---- check_valid
     f = find_func(dm, 'DcmMetaExtension', 'check_valid')
     if f is None:
@@ -1240,7 +1367,7 @@ def translate():
              'parameters `values` / `curr_class` (a constant is a one-element list, `null` stands for None), `self._content` the list of '
              'base names present; writes `get_class_dict(c)[key] = v` and `del get_class_dict(c)[key]` are recorded in order in the '
              'returned `KeyFx`, next to the Boolean the method returns',
-             prologue=['let mut fx : KeyFx α := {}'])
+             prologue=['let mut fx : KeyFx α := []'])
     # ---- get_meta: the `if not index is None:` block and the final return
     f = find_func(dm, 'NiftiWrapper', 'get_meta')
     blk = None
